@@ -26,6 +26,10 @@ pub enum RefOp {
 	Read(usize),
 	/// A `prefix` request with the given size hint.
 	Prefix(usize),
+	/// A `read_exact` call with a buffer of the given size.
+	ReadExact(usize),
+	/// A `read_to_end` call.
+	ReadToEnd,
 }
 
 /// The observable result of a [`RefOp`].
@@ -36,6 +40,10 @@ pub enum RefOpResult {
 	Read(io::Result<Vec<u8>>),
 	/// The bytes produced by a `prefix` call on a reader borrow.
 	Prefix(io::Result<Vec<u8>>),
+	/// The filled buffer of a successful `read_exact` call on a reader borrow.
+	ReadExact(io::Result<Vec<u8>>),
+	/// The bytes appended by a `read_to_end` call on a reader borrow.
+	ReadToEnd(io::Result<Vec<u8>>),
 }
 
 /// Owned input obtained from a [`Handle`].
@@ -72,6 +80,14 @@ impl<'i> Handle<'i> {
 				}
 				(r @ input::Ref::Reader(_), RefOp::Prefix(n)) => {
 					RefOpResult::Prefix(r.prefix(*n).map(<[u8]>::to_vec))
+				}
+				(input::Ref::Reader(r), RefOp::ReadExact(n)) => {
+					let mut buf = vec![0u8; *n];
+					RefOpResult::ReadExact(r.read_exact(&mut buf).map(|()| buf))
+				}
+				(input::Ref::Reader(r), RefOp::ReadToEnd) => {
+					let mut buf = vec![];
+					RefOpResult::ReadToEnd(r.read_to_end(&mut buf).map(|_| buf))
 				}
 			});
 		}
